@@ -777,7 +777,7 @@ func (e *Engine) VerifyFunction(fc *FuncContract) *FuncResult {
 		res.Aborted = "function has no body"
 		return res
 	}
-	if fc.Pure {
+	if fc.Pure && !fc.PureRefs {
 		if why := e.impure(fn); why != "" {
 			res.Aborted = "contract says pure but the function " + why
 			return res
@@ -823,7 +823,7 @@ func (e *Engine) VerifyFunction(fc *FuncContract) *FuncResult {
 	}
 	// proved postconditions of `pure` functions are available as quantified facts about their function symbols
 	for _, pfc := range e.sortedContracts() {
-		if !pfc.Pure || pfc.Extern || pfc == fc || len(pfc.Ensures) == 0 {
+		if !pfc.Pure || pfc.PureRefs || pfc.Extern || pfc == fc || len(pfc.Ensures) == 0 {
 			continue
 		}
 		if ax := x.pureAxiom(pfc); ax != "" {
@@ -856,6 +856,15 @@ func (e *Engine) VerifyFunction(fc *FuncContract) *FuncResult {
 	cov.Script = x.script(st, "false")
 	x.obls = append(x.obls, cov)
 	x.entryCover = cov
+	if fc.Checks["deterministic"] {
+		ob := &Obligation{Name: key + "#deterministic", Func: key, Kind: "frame", Src: "no clock, randomness, map iteration, goroutine, channel or unlisted dynamic call in the static call graph", Goal: "syntactic"}
+		if v := e.determinismViolations(fn); len(v) == 0 {
+			ob.Status, ob.Solver = "unsat", "callgraph"
+		} else {
+			ob.Status, ob.Solver, ob.Output = "unknown", "callgraph", strings.Join(v, "\n")
+		}
+		x.obls = append(x.obls, ob)
+	}
 	if fc.Trusted {
 		res.Obls = x.obls
 		res.Assumed = append(res.Assumed, "contract of "+key+" is trusted (body not verified)")
